@@ -53,8 +53,9 @@ def seam_points(drv, rng, n):
     return out
 
 def points(drv, tier, rng, n_random):
-    pts = seam_points(drv, rng, 40 if tier == 'quick' else 2000)
+    pts = seam_points(drv, rng, 120 if tier == 'quick' else 2000)
     fr = frame_points(drv)
+    pts += list(fr)          # the 62 frame points themselves (each is a cell corner or centre at every resolution)
     reps = 1 if tier == 'quick' else 6
     for lon, lat in fr:
         for k in range(1, 13):
@@ -92,7 +93,7 @@ def inside_corner_points(drv, rng, n):
         cl = cen[0]
         while cl - q[0] > 180: cl -= 360
         while cl - q[0] < -180: cl += 360
-        f = rng.choice([1e-2, 1e-3, 1e-4])
+        f = rng.choice([1e-2, 1e-3, 1e-4, 0.0, 0.0])      # 0.0: the published corner / edge point itself (given back to the library as is)
         out.append(((q[0] + f * (cl - q[0]), q[1] + f * (cen[1] - q[1])), c))
     return out
 
